@@ -222,6 +222,65 @@ def check_C_odd_names(S, p):
     S.case(key=digest([E.codes(cs), E.map_json(smap), "odd"]), nontrivial=len(exp.shape) >= 2)
 
 
+def check_C_order_and_pipes(S, p):
+    """(1) A site where one listed sample is missing and another is non-diploid: the outcome must not depend on the column order.
+    (2) The samples list handed over through a named pipe / /dev/stdin instead of a regular file."""
+    import itertools as it, os, threading
+    from .. import replay as R
+    rng = rng_for(S.seed, "c09", p["name"], "order")
+    samples = ["u", "v", "w", "x"]
+    listed = [("u", "A"), ("v", "A"), ("w", "B")]
+    bad_gt = rng.choice([gt((1,)), gt((0, 0, 0)), gt((0, 1, 1), True)])
+    base_gts = {"u": gt((None, None)), "v": bad_gt, "w": gt((0, 1)), "x": gt((1, 1))}
+    outcomes = {}
+    for perm in it.permutations(samples):
+        recs = [Record("c1", 5, [gt((0, 1)) for _ in perm]), Record("c1", 9, [base_gts[s_] for s_ in perm]), Record("c1", 12, [gt((1, 1)) for _ in perm])]
+        cs = CallSet(list(perm), [("c1", 1000)], recs)
+        r = E.cli_create(cs.to_vcf() if rng.random() < 0.5 else cs.to_bcf(), listed)
+        S.count("C_twin_runs")
+        S.count("C_column_orders_with_ploidy_error")
+        outcomes.setdefault((r.rc != 0, r.out), []).append((perm, r))
+    if len(outcomes) > 1 or any(not k[0] or k[1] for k in outcomes):
+        (k1, v1) = list(outcomes.items())[0]
+        other = list(outcomes.items())[-1][1][0]
+        S.viol("C09:column-order-ploidy", "[C %s] a listed sample is missing and another is non-diploid at c1:9: column order %r gives rc %s stdout %r but order %r gives rc %s stdout %r (must fail identically)" % (
+            p["name"], v1[0][0], v1[0][1].rc, v1[0][1].out[:60], other[0], other[1].rc, other[1].out[:60]), {"level": "C", "replay": R.same(v1[0][1], other[1])})
+    S.case(key=digest(["order", p["name"]]), nontrivial=True)
+    # (2) list through pipes
+    cs = G.random_callset(rng, nsamples=4, nrecords=8, p_missing=0.0, p_multi=0.0, extras=False)
+    smap = gen_map(rng, cs.samples)
+    data = cs.to_vcf()
+    content = "".join((s_ if q is None else "%s\t%s" % (s_, q)) + "\n" for s_, q in smap).encode()
+    base = E.cli_create(data, smap, samples_via="file", via="path")
+    fifo = E.tmpfile(b"", ".fifo")
+    os.unlink(fifo)
+    os.mkfifo(fifo)
+
+    def feed():
+        try:
+            with open(fifo, "wb") as f:
+                f.write(content)
+        except OSError:
+            pass
+    th = threading.Thread(target=feed, daemon=True)
+    th.start()
+    r1 = cli.sfs(["create", "-S", fifo, E.tmpfile(data, ".vcf")])
+    if th.is_alive():
+        try:
+            os.close(os.open(fifo, os.O_RDONLY | os.O_NONBLOCK))
+        except OSError:
+            pass
+    th.join(timeout=5)
+    r2 = cli.sfs(["create", "-S", "/dev/stdin", E.tmpfile(data, ".vcf")], stdin=content)
+    S.count("C_twin_runs", 2)
+    S.count("C_samples_list_through_pipes", 2)
+    for how, r in (("named pipe", r1), ("/dev/stdin", r2)):
+        if r.rc != base.rc or r.out != base.out:
+            S.viol("C09:samples-file-pipe", "[C %s] samples list through a %s: rc %s stdout %r stderr %r; from a regular file: rc %s stdout %r" % (
+                p["name"], how, r.rc, r.out[:80], r.err[:200], base.rc, base.out[:80]), {"level": "C", "list": E.map_json(smap), "replay": R.same(base, r) if how != "named pipe" else None})
+    S.case(key=digest(["pipes", p["name"], E.map_json(smap)]), nontrivial=True)
+
+
 def check_L1(S, p):
     seed = S.seed
     reqs, meta = [], []
@@ -278,3 +337,5 @@ def shard(S, p):
     check_L1(S, p)
     check_C(S, p)
     check_C_odd_names(S, p)
+    if p["i"] % 4 == 0:
+        check_C_order_and_pipes(S, p)
